@@ -81,6 +81,7 @@ impl StyledStr {
 
         let mut last = 0;
         let mut wrapper = crate::output::textwrap::wrap_algorithms::LineWrapper::new(hard_width);
+        let mut after_newline = false;
         for content in self.iter_text() {
             // Preserve styling
             let current = content.as_ptr() as usize - self.0.as_str().as_ptr() as usize;
@@ -89,12 +90,13 @@ impl StyledStr {
             }
             last = current + content.len();
 
-            for (i, line) in content.split_inclusive('\n').enumerate() {
-                if 0 < i {
+            for line in content.split_inclusive('\n') {
+                if after_newline {
                     // reset char count on newline, skipping the start as we might have carried
-                    // over from a prior block of styled text
+                    // over from a prior block of styled text (unless that block ended the line)
                     wrapper.reset();
                 }
+                after_newline = line.ends_with('\n');
                 let line = crate::output::textwrap::word_separators::find_words_ascii_space(line)
                     .collect::<Vec<_>>();
                 new.extend(wrapper.wrap(line));
